@@ -134,6 +134,9 @@ def c02(E, blt, opts, r):
             # (whole-run theorem C02_meek_iterations_conserve_whole_run); meek-prf logs no 'iterate' action
             if a['tag'] == 'iterate' and fv(E, tot) < n:
                 out.append(V_('c02-lost', "votes+residual = %s falls short of %d ballots at %r" % (tot, n, a['msg']), **sig))
+            # exact arithmetic: first preferences (equal-ranked ones are shared exactly) and every distribution balance to the ballot
+            if V.name == 'rational' and a['tag'] in ('begin', 'iterate') and fv(E, tot) != n:
+                out.append(V_('c02-rational-begin' if a['tag'] == 'begin' else 'c02-lost', "exact arithmetic: votes+residual = %s, ballots %d at %r" % (tot, n, a['msg']), **sig))
             # meek-prf logs no 'iterate'; its begin/elect/tie/defeat steps balance exactly (C08's whole-run theorem).  The other
             # steps ('round', the closing 'remaining' steps) are recorded too: K18 when the shortfall is the tally of a candidate
             # excluded earlier whose votes were zeroed before the next distribution
@@ -155,11 +158,44 @@ def c02(E, blt, opts, r):
             if a['tag'] == 'transfer' and a['msg'].startswith('Transfer elected'):
                 if abs(tot - nel) * S > (n + 1) * max(nel, 1):
                     out.append(V_('c02-qpq', "ballot contributions sum to %s with %d elected at %r" % (tot, nel, a['msg']), **sig))
+    # votes credited to a withdrawn candidate are lost to everybody else: the record has no tally for withdrawn candidates
+    for c in E.C:
+        if c.state == 'withdrawn' and bool(c.vote):
+            out.append(V_('c02-withdrawn-credited', "withdrawn candidate %d holds %s at the end of the count" % (c.cid, c.vote), **arith_sig(E)))
     return out
 
 # ------------------------------------------------------------------ C04
+def declared_options(blt, opts):
+    """the options a count was asked to run with: every [droop ...] group of the file, overridden by the caller's"""
+    import re
+    d = {}
+    for grp in re.findall(r'\[droop ([^\]]*)\]', blt):
+        for tok in grp.split():
+            if '=' in tok:
+                k, v = tok.split('=', 1); d[k] = v
+    for k, v in opts.items(): d[k] = v
+    return d
+
 def c04(E, blt, opts, r):
     out = []; sig = arith_sig(E)
+    # the arithmetic the quota is computed in is the one asked for (parametric rules; integer arithmetic means no places)
+    if rule_name(E) in ('wigm', 'meek', 'warren'):
+        d = declared_options(blt, opts)
+        ar = d.get('arithmetic')
+        want = {}
+        if ar in ('fixed', 'guarded') and 'precision' in d: want['precision'] = d['precision']
+        if ar == 'integer': want['precision'] = 0
+        if ar == 'guarded' and 'guard' in d: want['guard'] = d['guard']
+        if ar is None and E.V.name == 'guarded':
+            if 'precision' in d: want['precision'] = d['precision']
+            if 'guard' in d: want['guard'] = d['guard']
+        for k, v in want.items():
+            try:
+                if int(v) != int(getattr(E.V, k)):
+                    out.append(V_('c04-arith-config', "the count was asked for %s=%s but runs with %s=%s (%s arithmetic): the quota is computed in the wrong precision" %
+                                  (k, v, k, getattr(E.V, k), E.V.name), **sig))
+            except (TypeError, ValueError):
+                pass
     rule = rule_name(E); V = E.V; n = E.nBallots; s = E.nSeats
     S = scale_of(E)
     acts = snaps(E)
@@ -639,6 +675,9 @@ def c05(E, blt, opts, r):
             if got < need:
                 sig = arith_sig(E)
                 sig['after_stable_exit'] = any(a['msg'] == 'Iterate (stable)' for a in acts)
+                if rule == 'qpq':     # K19 / K17: a quotient of 10**9 or more makes every share 1/quotient truncate to 0
+                    S9 = scale_of(E) or 1
+                    sig['share_underflow'] = any(x.get('quotient') is not None and fv(E, x['quotient']) >= S9 for a in acts for x in a['cstate'].values())
                 out.append(V_('c05-coalition', "coalition %s is ranked first by %d ballots > %d quotas (quota %s, allowance %s) but only %d of its members are elected %s"
                               % (sorted(ss), G, k, quota, allowance, got, sorted(elected)), **sig))
                 return out
